@@ -125,8 +125,7 @@ package internal
 
 // json.Marshal of the four settings (trusted: encoding/json)
 //@ func (tlsConfigEncoder).JSON
-//@   abstractbody
-//@   pure
+//@   #allocates
 //@   ensures  json: result == EncJson(EncView(c))
 
 // the file watcher (goroutines, tickers) is outside the verified subset: its contract is assumed
